@@ -266,13 +266,17 @@ class TensorflowConnector(BuiltinConnector):
         return self._funm(matrix, partial(self.np.power, x2=power))
 
     def polar(self, matrix, side="right"):
-        P = self._tf.linalg.sqrtm(self.np.conj(matrix) @ matrix.T)
-        Pinv = self._tf.linalg.inv(P)
+        # NOTE: `matrix = U @ P` with `P = sqrtm(matrix^dagger @ matrix)` for the right,
+        # and `matrix = P @ U` with `P = sqrtm(matrix @ matrix^dagger)` for the left polar
+        # decomposition, as in `scipy.linalg.polar`.
+        adjoint = self.np.conj(matrix).T
 
         if side == "right":
-            U = matrix @ Pinv
+            P = self._tf.linalg.sqrtm(adjoint @ matrix)
+            U = matrix @ self._tf.linalg.inv(P)
         elif side == "left":
-            U = Pinv @ matrix
+            P = self._tf.linalg.sqrtm(matrix @ adjoint)
+            U = self._tf.linalg.inv(P) @ matrix
 
         return U, P
 
